@@ -139,7 +139,8 @@ pub fn gen_ws_conn(r: &mut Rng, nonce: &mut u64, port: u16, allow_faults: bool, 
                 why.push("Connection without upgrade");
             }
             _ => {
-                headers.push((rand_case(r, "connection"), b"upgraded, xupgrade".to_vec()));
+                let v = *r.pick(&["upgraded, xupgrade", "upgrade2", "upgrade/1.1, keep-alive", "up-grade", "keep-alive, upgrade."]);
+                headers.push((rand_case(r, "connection"), v.as_bytes().to_vec()));
                 why.push("Connection with near-miss tokens");
             }
         }
@@ -157,7 +158,18 @@ pub fn gen_ws_conn(r: &mut Rng, nonce: &mut u64, port: u16, allow_faults: bool, 
                 why.push("Upgrade: h2c");
             }
             _ => {
-                headers.push((rand_case(r, "upgrade"), b"websockets, xwebsocket".to_vec()));
+                // other protocol names that merely begin or end like the
+                // right one
+                let v = *r.pick(&[
+                    "websockets, xwebsocket",
+                    "websocket2",
+                    "websocket13",
+                    "h2c, websocket1.0",
+                    "websocket.",
+                    "web-socket",
+                    "websocket_13, foo/2",
+                ]);
+                headers.push((rand_case(r, "upgrade"), v.as_bytes().to_vec()));
                 why.push("Upgrade with near-miss tokens");
             }
         }
